@@ -35,6 +35,7 @@ var c14Templates = []struct{ name, src string }{
 	{"partial", `<%= partial("p", {"w": x}) %>`},
 	{"content", `<% contentFor("c") { %>[<%= x %>]<% } %><%= contentOf("c") %>`},
 	{"block", `<%= blk() { %>b<%= x %><% } %>`},
+	{"operators", `<%= sv ~= "^a" %>,<%= sv ~= "b$" %>,<%= x * 2 - 1 %>,<%= sv + "!" %>,<%= x > 15 && sv == "ab" %>`},
 }
 
 func c14Data(i int) map[string]interface{} {
@@ -42,6 +43,7 @@ func c14Data(i int) map[string]interface{} {
 		"x":      10 * (i + 1),
 		"xs":     []int{i, i + 1},
 		"animal": c13Animals[i%2],
+		"sv":     []string{"ab", "ba", "aa", "bb"}[i%4],
 		"st":     &Person{Name: fmt.Sprint("N", i), Kids: []Person{{Name: fmt.Sprint("K", i)}}},
 	}
 }
@@ -311,7 +313,7 @@ func init() {
 			return s
 		},
 		Run:  c14Run,
-		Rule: "Part A — schedules: real plush code (overlay: scheduling points at every function entry/loop head of the root package and at every mutex operation, sync replaced by a scheduler-aware shim) run under a cooperative scheduler; ALL interleavings with at most B preemptions are enumerated depth-first (choice-prefix replay; replay divergence is a hard error) for: one parsed template executed by 2 threads with own root contexts / with children of one shared parent (12 templates, one per construct class, different data per thread), Render of the same text with a cold cache, Parse vs CacheSet; oracle: every thread's (out, err) equals its solo result, no deadlock, no panic. Context operations: every pair of 2-operation threads over {Set(k,1), Set(k,2), Value(k), Has(k), Set(j,5), Value(j)} on one context with UNBOUNDED preemptions; every recorded call/return history must be linearizable w.r.t. a sequential map (brute force); New() racing with Set/Value with bound 1. Part B — data races: the same scenario bodies free-running with 2, 8 and 32 goroutines in a separate -race build, repeated; any race report or 'concurrent map' fatal error is a violation attributed to the scenario. Non-trivial: all scenarios (>=2 threads).",
+		Rule: "Part A — schedules: real plush code (overlay: scheduling points at every function entry/loop head of the root package and at every mutex operation, sync replaced by a scheduler-aware shim) run under a cooperative scheduler; ALL interleavings with at most B preemptions are enumerated depth-first (choice-prefix replay; replay divergence is a hard error) for: one parsed template executed by 2 threads with own root contexts / with children of one shared parent (13 templates, one per construct class, different data per thread), Render of the same text with a cold cache, Parse vs CacheSet; oracle: every thread's (out, err) equals its solo result, no deadlock, no panic. Context operations: every pair of 2-operation threads over {Set(k,1), Set(k,2), Value(k), Has(k), Set(j,5), Value(j)} on one context with UNBOUNDED preemptions; every recorded call/return history must be linearizable w.r.t. a sequential map (brute force); New() racing with Set/Value with bound 1. Part B — data races: the same scenario bodies free-running with 2, 8 and 32 goroutines in a separate -race build, repeated; any race report or 'concurrent map' fatal error is a violation attributed to the scenario. Non-trivial: all scenarios (>=2 threads).",
 		Bound: func(th bool) string {
 			if th {
 				return "Part A: per scenario the largest preemption bound b with n^(b+1)/b! <= 2e8 scheduling points (n = points of the default schedule; reported per case, typically 2-3), 2 threads; context ops unbounded for 2 threads x 2 ops and 3 threads x 1 op, bound 3 for 3 threads (2+1+1 ops); Part B: 200 repetitions x {2,8,32} goroutines"
